@@ -354,16 +354,23 @@ func (n *WorkflowNode) checkAndAddMappedPath(paths []FieldPath) error {
 		var traversed FieldPath
 		for i, path := range targetPath {
 			traversed = append(traversed, path)
-			if v, ok := m[path]; ok {
-				if _, ok = v.(struct{}); ok {
+			v, exist := m[path]
+			if exist {
+				if _, ok := v.(struct{}); ok {
 					return fmt.Errorf("two terminal field paths conflict for node %s: %v, %v", n.key, traversed, targetPath)
 				}
 			}
 
 			if i < len(targetPath)-1 {
-				m[path] = make(map[string]any)
-				m = m[path].(map[string]any)
+				if !exist {
+					v = make(map[string]any)
+					m[path] = v
+				}
+				m = v.(map[string]any)
 			} else {
+				if exist {
+					return fmt.Errorf("two terminal field paths conflict for node %s: %v is a prefix of an already mapped path", n.key, targetPath)
+				}
 				m[path] = struct{}{}
 			}
 		}
